@@ -22,7 +22,7 @@ from ..world import real_eval
 
 ID = 'C05'
 LEVEL = 'other'
-TIERS = {'quick': 1500, 'thorough': 60000}
+TIERS = {'quick': 3000, 'thorough': 120000}
 WALL_CAP = 180
 CALL_BOUND = 0.25          # virtual seconds per builtin call: constant part
 PER_CHAR = 1e-5            # plus time linear in len(pattern) + len(subject): 10^5 characters -> 1 s is "seconds": 1e-5/char -> <= 1 s total
